@@ -253,16 +253,21 @@ HEADER = '''#include "rel_check.hpp"
 '''
 
 
-def build(ctx, mode, per_tu=70):
-    """generated relation harness for one property (mode 3, 4 or 5); returns list of binaries"""
+def relations(ctx):
+    """discovered relations minus members that can be instantiated for no numeric type (dead code, DESIGN R5)"""
     from . import inst
     R = discover(ctx)
     sw = inst.sweep(ctx)
     dead = set(sw['dead_members'])
-    # a member that can be instantiated for no numeric type is dead code (DESIGN R5): no program using it compiles
     R = dict(R)
     R['members'] = [m for m in R['members'] if (m['c'], m['name']) not in dead]
     ctx.h.notes.append('members excluded as dead code (instantiate for no numeric type): %s' % sorted(dead))
+    return R
+
+
+def build(ctx, mode, per_tu=70):
+    """generated relation harness for one property (mode 3, 4 or 5); returns list of binaries"""
+    R = relations(ctx)
     items = [code for m, code in gen_items(R) if m == mode]
     qs = vf.quantity_names()
     inc = ''.join('#include <PhQ/%s.hpp>\n' % n for n in qs)
